@@ -264,7 +264,7 @@ func descFiles(fs []kv) string {
 }
 
 func main() {
-	mode := flag.String("mode", "dir", "dir|line|ops|cliops")
+	mode := flag.String("mode", "dir", "dir|line|ops|cliops|consumers")
 	tier := flag.String("tier", "quick", "quick|thorough")
 	outDir := flag.String("out", "", "output directory")
 	flag.Parse()
@@ -288,6 +288,8 @@ func main() {
 		genOps(w, *tier)
 	case "cliops":
 		genCli(w, *tier)
+	case "consumers":
+		genCons(w, *tier)
 	default:
 		fmt.Fprintln(os.Stderr, "unknown mode")
 		os.Exit(2)
